@@ -57,7 +57,13 @@ def _inside(loop_stmt, node, include_else=True):
 
 
 def check(run, repo, tier):
-  w = World(repo)
+  # decided on the code as written; when a private helper was extracted from fetch_table the
+  # rules are asked again on the view with such helpers inlined (sa/rules/_h_E.py)
+  from . import _h_E
+  _h_E.decide(run, repo, [_fetch_table_rules], anchors={"fetch_table", "__iter__"}, world=World(repo))
+
+
+def _fetch_table_rules(run, w):
   fn = w.fn("engine.Engine.fetch_table")
   ps = fn.fi.params()
   for p in ("table_id", "formulas", "private", "query"):
@@ -92,7 +98,18 @@ def check(run, repo, tier):
                                          and du.denotes(a_tid.value, is_table))
   if not (isinstance(a_rows, ast.Name) and isinstance(a_cols, ast.Name)):
     raise AnalysisError("fetch_table: kept ids / columns are not plain locals in the reply")
-  L, C = a_rows.id, a_cols.id
+  def root(name):
+    """The local a name is a plain alias of (x = y chains, e.g. left by helper inlining)."""
+    seen = set()
+    while name not in seen:
+      seen.add(name)
+      vals = du.values_of(name)
+      if vals and len(vals) == 1 and isinstance(vals[0], ast.Name):
+        name = vals[0].id
+      else:
+        break
+    return name
+  L, C = root(a_rows.id), root(a_cols.id)
   run.ob(R4, fn.qualname, short(rv), "reply names the requested table, the kept ids and the "
          "emitted columns", tid_ok and L != C, fi=fn.fi, node=rv)
 
@@ -115,8 +132,13 @@ def check(run, repo, tier):
           good = True
     if not good:
       other_mut.append(n)
+  # a plain alias of the list is harmless as long as nothing is done to the list through it
   aliased = [n for n in cfg.nodes if n.kind == "stmt" and isinstance(n.stmt, ast.Assign) and
-             isinstance(n.stmt.value, ast.Name) and n.stmt.value.id == L]
+             isinstance(n.stmt.value, ast.Name) and n.stmt.value.id == L and
+             any(du.muts.get(t.id) for t in n.stmt.targets if isinstance(t, ast.Name)) or
+             (n.kind == "stmt" and isinstance(n.stmt, ast.Assign) and
+              isinstance(n.stmt.value, ast.Name) and n.stmt.value.id == L and
+              not all(isinstance(t, ast.Name) for t in n.stmt.targets))]
   if len(appends) != 1:
     raise AnalysisError("fetch_table: expected one append to the kept ids, found %d" % len(appends))
   # the row loop, by role: the loop whose variable is what gets appended to the kept ids
@@ -182,7 +204,7 @@ def check(run, repo, tier):
     raise AnalysisError("fetch_table: expected one loop over (column, values) pairs inside the row "
                         "loop, found %d" % len(pair_loops))
   pl = pair_loops[0]
-  Q = pl.iter.id
+  Q = root(pl.iter.id)
   cvar, vvar = pl.target.elts[0].id, pl.target.elts[1].id
   def member(e):
     return isinstance(e, ast.Compare) and len(e.ops) == 1 and isinstance(e.ops[0], ast.In) and \
@@ -206,13 +228,19 @@ def check(run, repo, tier):
   xbody = _loop_body_entries(x, pl)
   xapp = {n.id for n in x.nodes if any(c is ac for c in calls_in(n.exprs))}
   hand = {n.id for n in x.nodes if n.kind == "handler" and _inside(pl, n.stmt)}
-  r = x.reach(xbody | hand, removed=xph)
-  ok = not (r & xapp) and bool(xapp & x.reach(xph))
+  # boolean flags set on the way out (all_matched = False; break ... if all_matched: append) are
+  # followed: the question is whether some path from inside the pair loop reaches the append
+  # without passing the loop head again
+  wit = G.reachable_with_flags(x, xbody | hand, xapp, stops=xph | _headers(x, rl) |
+                               {x.exit.id, x.raise_exit.id})
+  from_exhaustion = bool(xapp & x.reach(xph))
+  ok = wit is None and from_exhaustion
   run.ob(R2, fn.qualname, "%s.append(%s) only after the pair loop ran out" % (L, rvar),
          "a row that failed (or could not be tested for) one queried column is not kept; a row "
          "that passed all of them is", ok, fi=fn.fi, node=ac,
-         witness=None if ok else "the append is reachable from inside the pair loop (break / "
-         "handler) or is not reachable from its exhaustion")
+         witness=None if ok else ("the append is reachable from inside the pair loop: " +
+                                  x.describe_path(wit) if wit else
+                                  "the append is not reachable from the loop's exhaustion"))
   # unhashable stored value: the membership test sits under a TypeError handler
   tests = [n for n in x.nodes if n.kind == "if" and any(member(e) for (e, p) in
                                                          G.facts(n.stmt.test, True) + G.facts(n.stmt.test, False))]
@@ -307,48 +335,76 @@ def check(run, repo, tier):
   run.ob(R2, fn.qualname, "pairs are built before the row loop", "every row is tested against "
          "the complete filter", ok, fi=fn.fi, node=rl)
 
-  # ---- R3: the column filter, by truth table
-  col_loops = [n.stmt for n in cfg.nodes if n.kind == "for" and isinstance(n.stmt.iter, ast.Call) and
-               isinstance(n.stmt.iter.func, ast.Attribute) and
-               n.stmt.iter.func.attr in ("values", "items") and
-               isinstance(n.stmt.iter.func.value, ast.Attribute) and
-               n.stmt.iter.func.value.attr == "all_columns" and
-               du.denotes(n.stmt.iter.func.value.value, is_table)]
+  # ---- R3: the column filter, by truth table. Two spellings are followed: a loop over
+  # <table>.all_columns with a store into the column dict, or a dict comprehension over it.
+  def is_all_columns(it):
+    return isinstance(it, ast.Call) and isinstance(it.func, ast.Attribute) and \
+        it.func.attr in ("values", "items") and isinstance(it.func.value, ast.Attribute) and \
+        it.func.value.attr == "all_columns" and du.denotes(it.func.value.value, is_table)
+  def loop_vars(it, target):
+    if it.func.attr == "values":
+      if not isinstance(target, ast.Name):
+        raise AnalysisError("fetch_table: column loop target not a name")
+      return target.id, None
+    if not (isinstance(target, ast.Tuple) and len(target.elts) == 2 and
+            all(isinstance(e, ast.Name) for e in target.elts)):
+      raise AnalysisError("fetch_table: column loop target not (key, column)")
+    return target.elts[1].id, target.elts[0].id
+  def values_ok(val, colv):
+    return isinstance(val, ast.ListComp) and len(val.generators) == 1 and \
+        not val.generators[0].ifs and isinstance(val.generators[0].iter, ast.Name) and \
+        root(val.generators[0].iter.id) == L and \
+        isinstance(val.generators[0].target, ast.Name) and isinstance(val.elt, ast.Call) and \
+        text(val.elt.func) == colv + ".raw_get" and len(val.elt.args) == 1 and \
+        text(val.elt.args[0]) == val.generators[0].target.id
+  col_loops = [n.stmt for n in cfg.nodes if n.kind == "for" and is_all_columns(n.stmt.iter)]
   stores = [n for n in cfg.nodes if n.kind == "stmt" and isinstance(n.stmt, ast.Assign) and
             any(isinstance(t, ast.Subscript) and text(t.value) == C for t in n.stmt.targets)]
-  if len(col_loops) != 1 or len(stores) != 1:
-    raise AnalysisError("fetch_table: expected one loop over <table>.all_columns and one store "
-                        "into the column dict (found %d, %d)" % (len(col_loops), len(stores)))
-  cl = col_loops[0]
-  if cl.iter.func.attr == "values":
-    if not isinstance(cl.target, ast.Name):
-      raise AnalysisError("fetch_table: column loop target not a name")
-    colv, keyv = cl.target.id, None
-  else:
-    if not (isinstance(cl.target, ast.Tuple) and len(cl.target.elts) == 2 and
-            all(isinstance(e, ast.Name) for e in cl.target.elts)):
-      raise AnalysisError("fetch_table: column loop target not (key, column)")
-    keyv, colv = cl.target.elts[0].id, cl.target.elts[1].id
-  st = stores[0]
   cvals = du.values_of(C)
-  c_empty = bool(cvals) and all(isinstance(v, ast.Dict) and not v.keys for v in cvals)
-  tgt = [t for t in st.stmt.targets if isinstance(t, ast.Subscript)][0]
-  key = du.inline(tgt.slice, stop=(colv, keyv or ""))
-  key_ok = text(key) == colv + ".col_id" or (keyv is not None and text(key) == keyv)
-  val = du.inline(st.stmt.value, stop=(colv, L, rvar))
-  val_ok = isinstance(val, ast.ListComp) and len(val.generators) == 1 and \
-      not val.generators[0].ifs and text(val.generators[0].iter) == L and \
-      isinstance(val.generators[0].target, ast.Name) and isinstance(val.elt, ast.Call) and \
-      text(val.elt.func) == colv + ".raw_get" and len(val.elt.args) == 1 and \
-      text(val.elt.args[0]) == val.generators[0].target.id
-  other = [n for nid in du.muts.get(C, ()) for n in [cfg.nodes[nid]] if n is not st]
-  ok = c_empty and key_ok and val_ok and not other and _inside(cl, st.stmt) and \
-      not (cfg.reach(_headers(cfg, cl)) & _headers(cfg, rl))
-  # the kept ids are complete before columns are read: the column loop is not inside the row loop
-  ok = ok and not _inside(rl, cl)
-  run.ob(R3, fn.qualname, "%s[%s.col_id] = [%s.raw_get(r) for r in %s]" % (C, colv, colv, L),
-         "an emitted column carries its stored values for exactly the kept rows, under its own id",
-         ok, fi=fn.fi, node=st.stmt)
+  # the binding of the dict that reaches the reply (an earlier `C = {}` may be overwritten)
+  rvals = du.reaching_values(rets[0].id, C) if a_cols.id == C else cvals
+  comp = rvals[0] if (rvals and len(rvals) == 1 and isinstance(rvals[0], ast.DictComp)) else None
+  other_muts = [cfg.nodes[nid] for nid in du.muts.get(C, ())]
+  comp_tests = None
+  if comp is not None and not stores and not col_loops:
+    if len(comp.generators) != 1 or not is_all_columns(comp.generators[0].iter):
+      raise AnalysisError("fetch_table: the column dict is a comprehension over something other "
+                          "than <table>.all_columns")
+    colv, keyv = loop_vars(comp.generators[0].iter, comp.generators[0].target)
+    key = du.inline(comp.key, stop=(colv, keyv or ""))
+    key_ok = text(key) == colv + ".col_id" or (keyv is not None and text(key) == keyv)
+    val = du.inline(comp.value, stop=(colv, L, rvar, a_rows.id))
+    cdef = [cfg.nodes[d] for d in du.defs.get(C, ()) if cfg.nodes[d].stmt is not None and
+            getattr(cfg.nodes[d].stmt, "value", None) is comp]
+    ok = key_ok and values_ok(val, colv) and not other_muts and len(cdef) == 1 and \
+        not _inside(rl, cdef[0].stmt) and \
+        not (cfg.reach({cdef[0].id}) & _headers(cfg, rl))
+    run.ob(R3, fn.qualname, "%s = {%s.col_id: [%s.raw_get(r) for r in %s] for ... if ...}"
+           % (C, colv, colv, L), "an emitted column carries its stored values for exactly the "
+           "kept rows, under its own id", ok, fi=fn.fi, node=comp)
+    comp_tests = list(comp.generators[0].ifs)
+    anchor_node = comp
+  else:
+    if len(col_loops) != 1 or len(stores) != 1:
+      raise AnalysisError("fetch_table: expected one loop over <table>.all_columns and one store "
+                          "into the column dict (found %d, %d)" % (len(col_loops), len(stores)))
+    cl = col_loops[0]
+    colv, keyv = loop_vars(cl.iter, cl.target)
+    st = stores[0]
+    c_empty = bool(cvals) and all(isinstance(v, ast.Dict) and not v.keys for v in cvals)
+    tgt = [t for t in st.stmt.targets if isinstance(t, ast.Subscript)][0]
+    key = du.inline(tgt.slice, stop=(colv, keyv or ""))
+    key_ok = text(key) == colv + ".col_id" or (keyv is not None and text(key) == keyv)
+    val = du.inline(st.stmt.value, stop=(colv, L, rvar, a_rows.id))
+    other = [n for n in other_muts if n is not st]
+    ok = c_empty and key_ok and values_ok(val, colv) and not other and _inside(cl, st.stmt) and \
+        not (cfg.reach(_headers(cfg, cl)) & _headers(cfg, rl))
+    # the kept ids are complete before columns are read: the column loop is not inside the row loop
+    ok = ok and not _inside(rl, cl)
+    run.ob(R3, fn.qualname, "%s[%s.col_id] = [%s.raw_get(r) for r in %s]" % (C, colv, colv, L),
+           "an emitted column carries its stored values for exactly the kept rows, under its own id",
+           ok, fi=fn.fi, node=st.stmt)
+    anchor_node = st.stmt
   # truth table
   ATOMS = ["formulas", "private", "isf", "isp", "isid", "virt"]
   def classify(e):
@@ -366,16 +422,22 @@ def check(run, repo, tier):
         len(e.args) == 1 and text(e.args[0]) in ((colv + ".col_id",) + ((keyv,) if keyv else ())):
       return "virt"
     return None
-  ch = _headers(cfg, cl)
-  cb = _loop_body_entries(cfg, cl)
   wrong = []
   undecided = False
+  if comp_tests is None:
+    ch = _headers(cfg, cl)
+    cb = _loop_body_entries(cfg, cl)
   for bits in itertools.product([False, True], repeat=6):
     env = dict(zip(ATOMS, bits))
     def av(e):
       k = classify(du.inline(e, stop=(colv, keyv or "", "formulas", "private")))
       return None if k is None else env[k]
-    hit, unk = G.reaches_under(cfg, cb, {st.id}, ch, av)
+    if comp_tests is None:
+      hit, unk = G.reaches_under(cfg, cb, {st.id}, ch, av)
+    else:
+      vals = [G.eval_test(t, av) for t in comp_tests]
+      unk = any(v is None for v in vals) and not any(v is False for v in vals)
+      hit = all(v is True for v in vals)
     undecided = undecided or unk
     want = (env["formulas"] or not env["isf"]) and (env["private"] or not env["isp"]) and \
         not env["isid"] and not env["virt"]
@@ -386,7 +448,7 @@ def check(run, repo, tier):
                         "(formulas, private, is_formula, is_private, col_id == 'id', virtual)")
   run.ob(R3, fn.qualname, "emit <=> (formulas or not formula) and (private or not private) and "
          "col_id != 'id' and not virtual", "all 64 combinations of the six conditions give the "
-         "documented answer", not wrong, fi=fn.fi, node=st.stmt,
+         "documented answer", not wrong, fi=fn.fi, node=anchor_node,
          witness=None if not wrong else "%d combination(s) differ, e.g. %s" % (len(wrong), wrong[0]))
 
 
